@@ -226,6 +226,7 @@ def run(ctx: Ctx) -> None:
         histories(ctx, td, files)
         cache_and_concurrency(ctx, td, files)
         hash_seeds(ctx, td, files)
+        overlapping_arguments(ctx, td)
     finally:
         shutil.rmtree(td, ignore_errors=True)
     ctx.resolve_broken({"translate is_ignored_via_amend (iteration over the set settings.ignore)": "history:", "amend_order_irrelevant": "history:", "amend_translated_is_the_model": "history:",
@@ -287,6 +288,38 @@ def histories(ctx: Ctx, td: str, files: list[str]) -> None:
                        f"{[x for x in (got_i or []) if x not in (want[idx] or [])][:2]} / missing {[x for x in (want[idx] or []) if x not in (got_i or [])][:2]}",
                        {"history": name, "script": script[:3000], "run": idx + 1, "got": (got_i or [])[:40], "fresh": (want[idx] if idx < len(want) else None or [])[:40],
                         "n_got": len(got_i or []), "n_fresh": len(want[idx] or []) if idx < len(want) else None, "stderr": err[-500:]})
+
+
+def overlapping_arguments(ctx: Ctx, td: str) -> None:
+    """Arguments that name the same source more than once (a folder and a file inside it, a file twice, two spellings of one
+    file): whatever refurb answers -- diagnostics or an error line -- it answers for every order of the same arguments."""
+    wd = Path(td) / "overlap"
+    (wd / "pkg").mkdir(parents=True)
+    for name, src in (("alpha.py", "x = int(0)\n"), ("beta.py", "y = not not 1\n"), ("gamma.py", "z = str('')\n")):
+        (wd / "pkg" / name).write_text(src)
+    (wd / "solo.py").write_text("s = int(1)\n")
+    sets = [["pkg", "pkg/alpha.py"], ["pkg", "pkg/gamma.py"], ["pkg/alpha.py", "pkg/beta.py", "pkg/alpha.py"], ["solo.py", "./solo.py"],
+            ["pkg", "solo.py", "pkg/beta.py"], ["pkg/alpha.py", "pkg", "pkg/gamma.py"]]
+    jobs = []
+    for si, args in enumerate(sets):
+        for pi, perm in enumerate(sorted(set(itertools.permutations(args)))):
+            jobs.append((si, pi, list(perm)))
+    with ThreadPoolExecutor(max_workers=12) as ex:
+        outs = list(ex.map(lambda j: L.cli([*j[2], "--quiet"], cwd=str(wd)), jobs))
+    by_set: dict[int, list] = {}
+    for (si, pi, perm), (rc, out, err) in zip(jobs, outs):
+        # an error line may quote the arguments in the order given: compare the kind of answer and the diagnostics
+        diags = sorted(l for l in out.splitlines() if "[FURB" in l)
+        kind = "diagnostics" if diags else ("error:" + " ".join(sorted(set(re.findall(r"Duplicate module named|source file found twice|error", out))))) if out.strip() else "nothing"
+        by_set.setdefault(si, []).append((perm, rc, kind, diags))
+        ctx.case(("overlap", tuple(perm)), nontrivial=True, sample={"argv": perm, "rc": rc, "answer": kind} if si == 0 else None)
+        ctx.count("overlapping-arguments")
+    for si, rows in by_set.items():
+        answers = {(rc, kind, tuple(diags)) for _, rc, kind, diags in rows}
+        if len(answers) > 1:
+            a, b2 = rows[0], next(r for r in rows if (r[1], r[2], tuple(r[3])) != (rows[0][1], rows[0][2], tuple(rows[0][3])))
+            ctx.report("file-order-matters:overlapping-arguments", f"`refurb {' '.join(a[0])}` answers {a[2]} (exit {a[1]}) but `refurb {' '.join(b2[0])}` answers {b2[2]} (exit {b2[1]})",
+                       {"argv_a": a[0], "answer_a": [a[1], a[2], a[3]], "argv_b": b2[0], "answer_b": [b2[1], b2[2], b2[3]]})
 
 
 def hash_seeds(ctx: Ctx, td: str, files: list[str]) -> None:
